@@ -456,12 +456,12 @@ pub fn spec_for(which: &str, replay: bool) -> Spec<'static> {
     } else {
         Spec {
             level: "fault_enumeration",
-            rule: "a case is (position, depth, deadline). Deadlines are deterministic (after L nodes — every L for small searches, stratified otherwise — or at the n-th poll) or real wall-clock budgets of 0..20 ms (on fresh engines and on engines that have just finished a long search); positions include promotion races whose quiescence explodes and middlegames at depth 4..5. Observed: the number of nodes expanded between the moment the deadline passed (recorded by the hook at the node counter) and the return of the search; a cap turns a search that keeps going into a caught event. Black-box part: CPU time of the real release binary between 'go movetime T' and 'bestmove'. Violation: more than 5000 nodes after the deadline, or CPU time above T + 500 ms. Distinct by (position, depth, deadline); non-trivial when the deadline really fell inside the search",
+            rule: "a case is (position, depth, deadline). Deadlines are deterministic (after L nodes — every L for small searches, stratified otherwise — or at the n-th poll) or real wall-clock budgets of 0..20 ms (on fresh engines and on engines that have just finished a long search — one that ran into its deadline, or a depth-limited one that ended hours before its deadline); positions include promotion races whose quiescence explodes and middlegames at depth 4..5. Observed: the number of nodes expanded between the moment the deadline passed (recorded by the hook at the node counter) and the return of the search; a cap turns a search that keeps going into a caught event. Black-box part: CPU time of the real release binary between 'go movetime T' and 'bestmove'. Violation: more than 5000 nodes after the deadline, or CPU time above T + 500 ms. Distinct by (position, depth, deadline); non-trivial when the deadline really fell inside the search",
             assumptions: vec![
                 "5000 nodes / 500 ms are the monitor's reading of 'a small bounded amount of further work' (the unchanged engine overshoots by at most one node); a legitimate poll-every-few-thousand-nodes design is deliberately not accused".into(),
                 "CPU time of a single-threaded process never exceeds its wall time, so CPU time above the bound is a sound witness of a wall-clock overrun whatever the machine load".into(),
             ],
-            required: if replay { vec![] } else { vec!["interrupted_searches", "explosive_quiescence_trials", "deep_middlegame_trials", "wall_clock_trials", "wall_clock_trials_on_an_engine_that_searched_before", "blackbox_go_movetime", "blackbox_short_go_after_a_long_search", "wall_clock_trials_on_sparse_endgames", "blackbox_go_movetime_on_sparse_endgames"] },
+            required: if replay { vec![] } else { vec!["interrupted_searches", "explosive_quiescence_trials", "deep_middlegame_trials", "wall_clock_trials", "wall_clock_trials_on_an_engine_that_searched_before", "blackbox_go_movetime", "blackbox_short_go_after_a_long_search", "wall_clock_trials_on_sparse_endgames", "blackbox_go_movetime_on_sparse_endgames", "wall_clock_trials_after_a_search_that_ended_long_before_its_deadline"] },
             exhaustive: false,
             extra: vec![],
         }
@@ -1063,16 +1063,26 @@ fn wall_trial_reused(p: &Pos, first_ms: u64, budget_us: u64, st: &mut Stats) {
     );
     let b = eng::board_from_pos(p);
     let mut s = Searcher::new();
+    // two kinds of earlier search: one that runs into its (short) deadline, and — first_ms of an hour
+    // or more — a depth-limited one that ends LONG BEFORE its deadline (a game clock with hours on it):
+    // whatever the engine tuned itself to during that search must not delay the next deadline
+    let far = first_ms >= 3_600_000;
+    let first_depth: u8 = if far { if p.piece_count() <= 12 { 7 } else { 5 } } else { 64 };
     let r0 = {
         let s = &mut s;
+        s.verif_timer().hard_cap = Some(3_000_000);
         engine_call(|| {
-            s.find_best_move(&b, 64, Some(Duration::from_millis(first_ms)));
+            s.find_best_move(&b, first_depth, Some(Duration::from_millis(first_ms)));
         })
     };
+    s.verif_timer().hard_cap = None;
     if r0.is_err() {
-        return;
+        return; // the cap on the earlier search fired (position too heavy for this trial)
     }
     let first_nodes = s.verif_nodes();
+    if far {
+        st.bump("wall_clock_trials_after_a_search_that_ended_long_before_its_deadline");
+    }
     s.verif_timer().overrun_cap = Some(OVERSHOOT_BOUND);
     let r = {
         let s = &mut s;
@@ -1145,7 +1155,7 @@ fn c07_wall(ctx: &Ctx) -> Stats {
             st.sample_tagged("wall", || big_case_json(&p, 64, "wall", vec![("budget_us", J::i(us as i64))]));
             wall_trial(&p, us, &mut st);
             if i % 4 == 1 {
-                let first = *rng.pick(&[30u64, 80, 150]);
+                let first = *rng.pick(&[30u64, 80, 150, 7_200_000, 7_200_000]);
                 wall_trial_reused(&p, first, us.min(2000), &mut st);
             }
         }
@@ -1216,10 +1226,29 @@ fn c07_blackbox(ctx: &Ctx) -> Stats {
             if i % 3 == 0 {
                 // a long search first (one that outlasts any earlier one in this process), so that a
                 // poll schedule kept across searches has run far ahead of the next search
-                let warm = format!("go movetime {}", rng.pick(&[600u64, 900, 1200]));
+                // ... or a depth-limited search under a clock with hours on it, which ends long before
+                // its deadline
+                // (only where a depth-limited search is known to be short: not in promotion races)
+                let depth_limited = i % 3 != 0 && rng.chance(1, 2);
+                let warm = if depth_limited { format!("go depth {} wtime 7200000 btime 7200000 winc 0 binc 0", if p.piece_count() <= 12 { 8 } else { 5 }) } else { format!("go movetime {}", rng.pick(&[600u64, 900, 1200])) };
                 let _ = eng.send(&format!("position fen {}", p.to_fen()));
-                if eng.command(&warm, Duration::from_secs(30)).is_ok() {
-                    st.bump("blackbox_short_go_after_a_long_search");
+                match eng.command(&warm, Duration::from_secs(60)) {
+                    Ok(_) => {
+                        st.bump("blackbox_short_go_after_a_long_search");
+                        if depth_limited {
+                            st.bump("blackbox_short_go_after_a_search_that_ended_long_before_its_deadline");
+                        }
+                    }
+                    Err(_) => {
+                        // the earlier search is still running (or the engine is gone): whatever is sent
+                        // now would be measured together with it — start over with a fresh process
+                        st.bump("blackbox_warm_up_search_not_finished_in_time");
+                        eng = match bb::Engine::spawn(&ctx.engine_bin) {
+                            Ok(e) => e,
+                            Err(_) => break,
+                        };
+                        continue;
+                    }
                 }
             }
             let script = vec![format!("position fen {}", p.to_fen()), format!("go movetime {}", t)];
